@@ -8,5 +8,6 @@ CONSTANTS
   TD <- ToDec
   NT <- NumText
   NTL <- NumTextLoc
+  CV <- Convert
 INVARIANTS LawBytesLayout
 CHECK_DEADLOCK FALSE
